@@ -54,6 +54,7 @@ fn run(ctx: &Ctx, out: &mut Out) {
     }
     leg_wide(ctx, out);
     leg_typed_witness(ctx, out);
+    leg_widths(ctx, out);
 }
 
 pub fn nontrivial(p: &Prog) -> bool {
@@ -510,6 +511,100 @@ fn leg_typed_witness(ctx: &Ctx, out: &mut Out) {
             match guard(|| redeem_roundtrip(&p, &wit, &jets, out)) {
                 Ok(Ok(())) => {
                     out.outcome("typed:ok");
+                    out.sample(leg, || (label(), "round trip ok".into()));
+                }
+                Ok(Err((c, d))) => out.violation(&c, leg, label(), d),
+                Err(e) => out.violation(&panic_class(&e), leg, label(), e),
+            }
+            ctx.end();
+        }
+    }
+}
+
+/// A witness node whose principal type is a product of words L bits wide in total (as many 64-bit
+/// words as fit, then the binary expansion of the rest), pinned by a constant of the same type:
+/// comp (comp (pair (injl unit) (pair witness K)) (case (drop (take iden)) (drop (drop iden)))) unit.
+/// Returns the DAG, the witness node's index and its type.
+pub fn width_host(bits: usize) -> (Dag, usize, Rc<RT>) {
+    assert!(bits >= 1);
+    fn push(d: &mut Dag, sym: Sym, l: usize, r: usize) -> usize {
+        d.push(Node { sym, l: l as _, r: r as _ });
+        d.len() - 1
+    }
+    let mut words: Vec<u8> = vec![6; bits / 64];
+    for k in (0..6).rev() {
+        if bits % 64 & (1 << k) != 0 {
+            words.push(k as u8);
+        }
+    }
+    let mut d: Dag = vec![];
+    let u = push(&mut d, Sym::Unit, 0, 0);
+    let sel = push(&mut d, Sym::InjL, u, 0);
+    let w = push(&mut d, Sym::Witness, 0, 0);
+    // K = pair w_0 (pair w_1 (...)), emitted in post-order (left child, right child, node)
+    fn konst(d: &mut Dag, words: &[u8]) -> (usize, Rc<RT>) {
+        let x = push(d, Sym::Word(words[0], if words.len() % 2 == 0 { 0xfedc_ba98_7654_3210 } else { 0x0123_4567_89ab_cdef }), 0, 0);
+        let tx = RT::word(words[0] as usize);
+        if words.len() == 1 {
+            return (x, tx);
+        }
+        let (rest, tr) = konst(d, &words[1..]);
+        (push(d, Sym::Pair, x, rest), RT::prod(&tx, &tr))
+    }
+    let (k, ty) = konst(&mut d, &words);
+    let wk = push(&mut d, Sym::Pair, w, k);
+    let input = push(&mut d, Sym::Pair, sel, wk);
+    let i1 = push(&mut d, Sym::Iden, 0, 0);
+    let t1 = push(&mut d, Sym::Take, i1, 0);
+    let left = push(&mut d, Sym::Drop, t1, 0);
+    let i2 = push(&mut d, Sym::Iden, 0, 0);
+    let d2 = push(&mut d, Sym::Drop, i2, 0);
+    let right = push(&mut d, Sym::Drop, d2, 0);
+    let cs = push(&mut d, Sym::Case, left, right);
+    let c1 = push(&mut d, Sym::Comp, input, cs);
+    let u2 = push(&mut d, Sym::Unit, 0, 0);
+    push(&mut d, Sym::Comp, c1, u2);
+    (d, w, ty)
+}
+
+/// witness values of every bit width: the width at which a hand-rolled padding, length prefix or
+/// word boundary goes wrong is not one any small type has
+pub fn width_values(t: &Rc<RT>) -> Vec<Rc<RV>> {
+    let mut v = corner_values(t);
+    v.truncate(4);
+    v
+}
+
+fn leg_widths(ctx: &Ctx, out: &mut Out) {
+    let leg = "witness-widths";
+    let fam = Fam::Core;
+    let jets = JetCodes::new(fam);
+    let max = ctx.tier.pick(600, 1100);
+    for bits in 1..=max {
+        if !ctx.mine() {
+            continue;
+        }
+        let (dag, w, t) = width_host(bits);
+        let p = match Prog::new(&dag, fam) {
+            Some(p) if p.arrows[w].1 == t => p,
+            _ => {
+                out.violation("widths:host", leg, format!("{bits} bits"), "the reference does not give the host's witness node the intended type".into());
+                continue;
+            }
+        };
+        for v in width_values(&t) {
+            let mut wit = vec![None; dag.len()];
+            wit[w] = Some(v.clone());
+            let label = || format!("witness of {bits} bits = {}", bits_str(&v.compact()));
+            if !ctx.begin(leg, &label) {
+                continue;
+            }
+            out.evaluations += 1;
+            out.states += 1;
+            out.nontrivial += 1;
+            match guard(|| redeem_roundtrip(&p, &wit, &jets, out)) {
+                Ok(Ok(())) => {
+                    out.outcome("widths:ok");
                     out.sample(leg, || (label(), "round trip ok".into()));
                 }
                 Ok(Err((c, d))) => out.violation(&c, leg, label(), d),
